@@ -84,6 +84,7 @@ def pyval(v):
     if isinstance(v, bool): return "(PInt %d)" % int(v)
     if isinstance(v, int): return "(PInt (%d))" % v
     if isinstance(v, float): return "(PFloat (%s)%%float)" % v.hex()
+    if isinstance(v, dict) and "big" in v: return "(PInt 1329227995784915872903807060280344576)"   # marker: |value| > 2^80 (outside every domain)
     if isinstance(v, dict) and "f" in v:
         if v["f"] in ("inf", "-inf", "nan"):
             return "(PFloat %s)" % {"inf": "infinity", "-inf": "neg_infinity", "nan": "nan"}[v["f"]]
